@@ -12,6 +12,8 @@ Open Scope nat_scope.
 Section P.
 Variable p : prog.
 Notation memob := (memob p).
+Notation dead := (dead p).
+Notation GoneSame := (GoneSame p).
 Notation effb := (effb p).
 Notation sigb := (sigb p).
 Notation WF := (WF p).
@@ -30,7 +32,7 @@ Notation queue_ok := (queue_ok p).
 Lemma WF_getn_eq s s' :
   nlen s' = nlen s -> (forall i, getn s' i = getn s i) -> WF s -> WF s'.
 Proof.
-  intros Hl He W. apply (WF_same_edges p s s'); auto. intros i. rewrite He. auto.
+  intros Hl He W. apply (WF_same_edges p s s'); auto; intros i; [rewrite He; auto|apply dead_node; auto].
 Qed.
 
 Lemma queue_transfer s s' :
@@ -47,12 +49,12 @@ Lemma Inv_transfer stk t t0 s s' :
   WF s' -> err s' = false -> nocause s' = 0 -> ready s' = ready s ->
   (forall i, ~ In i stk -> nview_eq (getn s i) (getn s' i)) ->
   (forall e, qview_eq (getn s e) (getn s' e)) ->
-  (forall j, cur s' j = cur s j) ->
+  (forall j, cur s' j = cur s j) -> GoneSame s s' ->
   (forall j, memob j = true -> st (getn s j) = Clean -> st (getn s' j) = Clean) ->
   (forall k, In k stk -> Frame t s' k) ->
   Inv stk t0 s -> Inv stk t s'.
 Proof.
-  intros W' E' N' Hr V Q Hc Hcl F I. split; auto.
+  intros W' E' N' Hr V Q Hc Hg Hcl F I. split; auto.
   - intros i Hi. apply (Rest_ext p s s' i (V i Hi)); auto. apply I; auto.
   - apply (queue_transfer s s' Hr Q). apply I.
 Qed.
@@ -65,6 +67,7 @@ Proof.
   intros W' E' N' Hr V I.
   assert (Hcur : forall j, cur s' j = cur s j) by (intros j; apply cur_view; apply V).
   assert (Hst : forall j, st (getn s' j) = st (getn s j)) by (intros j; apply V).
+  assert (Hgs : GoneSame s s') by (intros j; apply dead_view; apply V).
   apply (Inv_transfer stk t t s s'); auto.
   - intros e. apply nview_qview. apply V.
   - intros j _ Hc. rewrite Hst; auto.
@@ -145,6 +148,7 @@ Proof.
   intros W. apply (WF_same_edges p s (log_read c j v t il s)); auto.
   - apply (proj1 (log_read_misc c j v t il s)).
   - intros i. destruct (log_read_other_fields c j v t il s i) as (_&H1&_&_&H2&_). auto.
+  - intros i. apply dead_view. destruct (log_read_other_fields c j v t il s i) as (_&_&_&_&_&_&_&_&_&_&_&_&H&_). exact H.
 Qed.
 
 (* the only thing a log entry changes: the log of the running body *)
@@ -220,6 +224,7 @@ Proof.
   assert (Hcur : forall x, cur s' x = cur s x) by (intros x; apply cur_view; apply Hf).
   assert (Hst : forall x, st (getn s' x) = st (getn s x)) by (intros x; apply Hf).
   assert (Hsr : forall x, srcs (getn s' x) = srcs (getn s x)) by (intros x; apply Hf).
+  assert (Hgs : GoneSame s s') by (intros x; apply dead_view; apply Hf).
   destruct (log_read_misc c j v false il s) as (Ml & Me & Mr & Mh & Mn). fold s' in Ml, Me, Mr, Mh, Mn.
   split; [|split].
   - apply (Inv_transfer stk t t s s'); auto.
@@ -230,8 +235,8 @@ Proof.
     + intros e. apply log_read_qview.
     + intros x _ Hc. rewrite Hst; auto.
     + intros k Hk. destruct (inv_frame _ _ _ _ I k Hk) as (F1&F2&F3&F4&F5&F6&F7).
-      split; [intros x w Hx; rewrite Hcur; apply (F1 x w); auto|].
-      split; [intros x w Hx Hm; rewrite Hst; apply (F2 x w); auto|].
+      split; [intros x w Hx Hg; rewrite Hcur; rewrite (Hgs x) in Hg; apply (F1 x w); auto|].
+      split; [intros x w Hx Hm Hg; rewrite Hst; rewrite (Hgs x) in Hg; apply (F2 x w); auto|].
       split; [intros x; rewrite Hsr, Htr; auto|]. split; [exact F4|]. split; [exact F5|].
       split; [intros Hm; rewrite Hst; auto|].
       intros He. destruct (Hf k) as (_&_&_&_&_&_&->&_). auto.
@@ -243,6 +248,7 @@ Qed.
 (* ---------------------------------------------------------------- a tracked read: track ... log *)
 Lemma Inv_track stk t c o j s :
   Inv stk t s -> ctx_ok stk c -> obs_of c = Some o -> TopOK c s -> j < t -> dep p o j ->
+  dead s j = false ->
   let s1 := track c j s in
   Inv stk j s1 /\
   srcs (getn s1 o) = tracked_of (rlog (getn s1 o)) ++ [j] /\
@@ -251,7 +257,7 @@ Lemma Inv_track stk t c o j s :
   (forall k, rlog (getn s1 k) = rlog (getn s k)) /\
   subs (getn s1 j) = subscribe (subs (getn s j)) o.
 Proof.
-  intros I C Ho T Hjt Hdep. cbv zeta.
+  intros I C Ho T Hjt Hdep Hlive. cbv zeta.
   destruct (ctx_ok_obs stk c o C Ho) as [Hw Hin].
   destruct (inv_frame _ _ _ _ I o Hin) as (_&_&_&Hto&Hol&_).
   assert (Hlt : j < o) by lia.
@@ -267,19 +273,20 @@ Proof.
   assert (Hsro : forall k, k <> o -> srcs (getn s1 k) = srcs (getn s k)).
   { intros k Hk. rewrite Hsr. destruct (Nat.eqb_spec k o); congruence. }
   assert (Hcur : forall x, cur s1 x = cur s x) by (intros x; apply cur_view; auto).
+  assert (Hgs : GoneSame s s1) by (intros x; apply dead_view; apply Hrest).
   assert (Hno : forall i, ~ In i stk -> i <> o) by (intros i Hi ->; auto).
   destruct (track_misc c o j s Ho) as (Me & Mr & _ & Mn & Mh). fold s1 in Me, Mr, Mn, Mh.
   split; [|split; [|split; [|split; [|split]]]]; auto.
   - apply (Inv_transfer stk j t s s1); auto.
-    + apply (WF_track p c o j s Ho Hlt Hor Hdep). apply I.
+    + apply (WF_track p c o j s Ho Hlt Hor Hdep Hlive). apply I.
     + rewrite Me. apply I.
     + rewrite Mn. apply I.
     + intros i Hi. specialize (Hrest i). unfold nview_eq. rewrite (Hsro i (Hno i Hi)). intuition.
     + intros e. specialize (Hrest e). unfold qview_eq. intuition.
     + intros x _ Hc. rewrite Hst; auto.
     + intros k Hk. destruct (inv_frame _ _ _ _ I k Hk) as (F1&F2&F3&F4&F5&F6&F7).
-      split; [intros x w Hx; rewrite Hcur; rewrite Hrl in Hx; apply (F1 x w); auto|].
-      split; [intros x w Hx Hm; rewrite Hst; rewrite Hrl in Hx; apply (F2 x w); auto|].
+      split; [intros x w Hx Hg; rewrite Hcur; rewrite Hrl in Hx; rewrite (Hgs x) in Hg; apply (F1 x w); auto|].
+      split; [intros x w Hx Hm Hg; rewrite Hst; rewrite Hrl in Hx; rewrite (Hgs x) in Hg; apply (F2 x w); auto|].
       split; [|split; [lia|split; [auto|split; [intros Hm; rewrite Hst; auto|
                  intros He; destruct (Hrest k) as (_&_&_&_&_&->&_); auto]]]].
       intros x. rewrite Hrl, Hsr. destruct (Nat.eqb_spec k o) as [->|Hko].
@@ -299,6 +306,64 @@ Proof.
   - rewrite Hsu, Nat.eqb_refl. reflexivity.
 Qed.
 
+(* a tracked read of a disposed source: recorded as a dead source, no subscriber edge *)
+Lemma Inv_track_dead stk t c o j s :
+  Inv stk t s -> ctx_ok stk c -> obs_of c = Some o -> TopOK c s -> j < t -> dep p o j ->
+  dead s j = true ->
+  let s1 := track_dead c j s in
+  Inv stk j s1 /\
+  srcs (getn s1 o) = tracked_of (rlog (getn s1 o)) ++ [j] /\
+  PullRel (S j) stk (Some o) s s1 /\
+  (forall k, k <> o -> srcs (getn s1 k) = srcs (getn s k)) /\
+  (forall k, rlog (getn s1 k) = rlog (getn s k)).
+Proof.
+  intros I C Ho T Hjt Hdep Hdead. cbv zeta.
+  destruct (ctx_ok_obs stk c o C Ho) as [Hw Hin].
+  destruct (inv_frame _ _ _ _ I o Hin) as (_&_&_&Hto&Hol&_).
+  assert (Hlt : j < o) by lia.
+  assert (Hor : o < nlen s) by (rewrite (wf_len p s (inv_wf _ _ _ _ I)); auto).
+  set (s1 := track_dead c j s).
+  assert (Hrest := fun k => track_dead_rest c o j s Ho Hor k). cbv zeta in Hrest. fold s1 in Hrest.
+  assert (Hsv : forall k, sval (getn s1 k) = sval (getn s k)) by (intros k; apply Hrest).
+  assert (Hst : forall k, st (getn s1 k) = st (getn s k)) by (intros k; apply Hrest).
+  assert (Hca : forall k, cache (getn s1 k) = cache (getn s k)) by (intros k; apply Hrest).
+  assert (Hrl : forall k, rlog (getn s1 k) = rlog (getn s k)) by (intros k; apply Hrest).
+  assert (Hsu : forall k, subs (getn s1 k) = subs (getn s k)) by (intros k; apply Hrest).
+  assert (Hsr := fun k => track_dead_srcs c o j s Ho Hor k). fold s1 in Hsr.
+  assert (Hsro : forall k, k <> o -> srcs (getn s1 k) = srcs (getn s k)).
+  { intros k Hk. rewrite Hsr. destruct (Nat.eqb_spec k o); congruence. }
+  assert (Hcur : forall x, cur s1 x = cur s x) by (intros x; apply cur_view; auto).
+  assert (Hgs : GoneSame s s1) by (intros x; apply dead_view; apply Hrest).
+  assert (Hno : forall i, ~ In i stk -> i <> o) by (intros i Hi ->; auto).
+  destruct (track_dead_misc c o j s Ho) as (Me & Mr & _ & Mn & Mh). fold s1 in Me, Mr, Mn, Mh.
+  split; [|split; [|split; [|split]]]; auto.
+  - apply (Inv_transfer stk j t s s1); auto.
+    + apply (WF_track_dead p c o j s Ho Hlt Hor Hdep Hdead). apply I.
+    + rewrite Me. apply I.
+    + rewrite Mn. apply I.
+    + intros i Hi. specialize (Hrest i). unfold nview_eq. rewrite (Hsro i (Hno i Hi)). intuition.
+    + intros e. specialize (Hrest e). unfold qview_eq. intuition.
+    + intros x _ Hc. rewrite Hst; auto.
+    + intros k Hk. destruct (inv_frame _ _ _ _ I k Hk) as (F1&F2&F3&F4&F5&F6&F7).
+      split; [intros x w Hx Hg; rewrite Hcur; rewrite Hrl in Hx; rewrite (Hgs x) in Hg; apply (F1 x w); auto|].
+      split; [intros x w Hx Hm Hg; rewrite Hst; rewrite Hrl in Hx; rewrite (Hgs x) in Hg; apply (F2 x w); auto|].
+      split; [|split; [lia|split; [auto|split; [intros Hm; rewrite Hst; auto|
+                 intros He; destruct (Hrest k) as (_&_&_&_&_&->&_); auto]]]].
+      intros x. rewrite Hrl, Hsr. destruct (Nat.eqb_spec k o) as [->|Hko].
+      * rewrite in_app_iff. intros [Hx|[<-|[]]]; [|right; lia].
+        destruct (F3 x Hx); auto. right; lia.
+      * intros Hx. destruct (F3 x Hx); auto. right; lia.
+  - rewrite Hrl, Hsr, Nat.eqb_refl. unfold TopOK in T. rewrite Hw in T. unfold L1 in T. rewrite T. reflexivity.
+  - split.
+    + apply (track_dead_nlen c o j s Ho).
+    + auto.
+    + intros i Hm Hi Hc. rewrite Hst, Hca, Hrl, (Hsro i (Hno i Hi)). auto.
+    + intros y Hy He. split; [apply Hrl|]. apply Hsro. intros ->. apply He; reflexivity.
+    + intros y Hy. rewrite Hca, Hst, Hsu. split; auto. split; auto using st_le_refl.
+    + intros i. specialize (Hrest i). intuition.
+    + exact Mh.
+Qed.
+
 (* the log entry of a tracked read completes the pending source *)
 Lemma Inv_log_tracked stk t c o j v s :
   Inv stk j s -> ctx_ok stk c -> fst c = Some o ->
@@ -306,7 +371,8 @@ Lemma Inv_log_tracked stk t c o j v s :
                In x (tracked_of (rlog (getn s k))) \/ t <= x) ->
   (forall k, In k stk -> t <= k) ->
   srcs (getn s o) = tracked_of (rlog (getn s o)) ++ [j] ->
-  cur s j = v -> (memob j = true -> st (getn s j) = Clean) ->
+  (dead s j = false -> cur s j = v) ->
+  (memob j = true -> dead s j = false -> st (getn s j) = Clean) ->
   let s' := log_read c j v true true s in
   Inv stk t s' /\ TopOK c s' /\ PullRel (S j) stk (Some o) s s'.
 Proof.
@@ -325,6 +391,7 @@ Proof.
   assert (Hcur : forall x, cur s' x = cur s x) by (intros x; apply cur_view; apply Hf).
   assert (Hst : forall k, st (getn s' k) = st (getn s k)) by (intros k; apply Hf).
   assert (Hsr : forall k, srcs (getn s' k) = srcs (getn s k)) by (intros k; apply Hf).
+  assert (Hgs : GoneSame s s') by (intros x; apply dead_view; apply Hf).
   assert (HL1o : srcs (getn s' o) = tracked_of (rlog (getn s' o))).
   { rewrite Hsr, Hro, tracked_of_app, Hpend. reflexivity. }
   destruct (log_read_misc c j v true true s) as (Ml & Me & Mr & Mh & Mn). fold s' in Ml, Me, Mr, Mh, Mn.
@@ -340,18 +407,18 @@ Proof.
       assert (Hedk : edirty (getn s' k) = edirty (getn s k)) by (destruct (Hf k) as (_&_&_&_&_&_&->&_); auto).
       destruct (Nat.eq_dec k o) as [->|Hko].
       * split.
-        { intros x w Hx. rewrite Hcur. rewrite Hro, in_app_iff in Hx. destruct Hx as [Hx|[Hx|[]]].
+        { intros x w Hx Hg. rewrite Hcur. rewrite (Hgs x) in Hg. rewrite Hro, in_app_iff in Hx. destruct Hx as [Hx|[Hx|[]]].
           - apply (F1 x w); auto.
-          - inversion Hx; subst. apply eqv_refl. }
+          - inversion Hx; subst. apply eqv_eq. auto. }
         split.
-        { intros x w Hx Hm. rewrite Hst. rewrite Hro, in_app_iff in Hx. destruct Hx as [Hx|[Hx|[]]].
+        { intros x w Hx Hm Hg. rewrite Hst. rewrite (Hgs x) in Hg. rewrite Hro, in_app_iff in Hx. destruct Hx as [Hx|[Hx|[]]].
           - apply (F2 x w); auto.
           - inversion Hx; subst. auto. }
         split; [intros x Hx; left; rewrite <- HL1o; exact Hx|].
         split; [auto|]. split; [auto|]. split; [intros Hm; rewrite Hst; auto|].
         intros He. rewrite Hedk. auto.
-      * split; [intros x w Hx; rewrite Hcur; rewrite Hrk in Hx by auto; apply (F1 x w); auto|].
-        split; [intros x w Hx Hm; rewrite Hst; rewrite Hrk in Hx by auto; apply (F2 x w); auto|].
+      * split; [intros x w Hx Hg; rewrite Hcur; rewrite Hrk in Hx by auto; rewrite (Hgs x) in Hg; apply (F1 x w); auto|].
+        split; [intros x w Hx Hm Hg; rewrite Hst; rewrite Hrk in Hx by auto; rewrite (Hgs x) in Hg; apply (F2 x w); auto|].
         split; [intros x Hx; rewrite Hsr in Hx; rewrite Hrk by auto; apply Hsrc; auto|].
         split; [auto|]. split; [auto|]. split; [intros Hm; rewrite Hst; auto|].
         intros He. rewrite Hedk. auto.
